@@ -125,6 +125,80 @@ def very_long_worker(job):
     return st
 
 
+def many_worker(job):
+    """Thousands of paths through the pipe while the system's command-line budget is small (soft stack limit 512 KiB..2 MiB, so
+    ARG_MAX = 128..512 KiB): xargs has to split the stream into several command lines at the system limit, and still every path
+    arrives exactly once, in order."""
+    import resource
+    k, nruns, seed = job
+    st = Stats()
+    rng = common.rng_for(seed, "C07M", k)
+    base = common.mkscratch("C07M%d" % k)
+    try:
+        for t in range(nruns):
+            sb = os.path.join(base, "t%d" % t)
+            os.makedirs(os.path.join(sb, "r"))
+            stack_kib = rng.choice([512, 512, 640, 1024, 2048])
+            nfiles = rng.randint(6000, 9000) * (stack_kib // 512)
+            alphabet = ["a", "b", "x", "_", "-", "0", " ", "あ", "é", "z"]
+            names = set()
+            ndirs = rng.randint(1, 12)
+            exp = ["r"]
+            dirs = ["d%02d" % i for i in range(ndirs)]
+            per = nfiles // ndirs
+            for d in dirs:
+                os.mkdir(os.path.join(sb, "r", d))
+            for d in sorted(dirs, key=lambda x: x.encode()):
+                exp.append("r/" + d)
+                ns = set()
+                while len(ns) < per:
+                    ns.add("".join(rng.choice(alphabet) for _ in range(rng.randint(3, 22))).strip() or "q")
+                for n_ in ns:
+                    fd = os.open(os.path.join(sb, "r", d, n_), os.O_CREAT | os.O_WRONLY, 0o644)
+                    os.close(fd)
+                exp += ["r/" + d + "/" + n_ for n_ in sorted(ns, key=lambda x: x.encode())]
+            exp = [e.encode() for e in exp]
+            log = os.path.join(sb, "rec.log")
+            env2 = common.clean_env({"VERIF_REC_LOG": log})
+            lim = stack_kib * 1024
+
+            def pre():
+                resource.setrlimit(resource.RLIMIT_STACK, (lim, resource.RLIM_INFINITY))
+            p1 = subprocess.Popen([common.FIND, "r", "-sorted", "-print0"], cwd=sb, env=common.clean_env(), stdout=subprocess.PIPE,
+                                  stderr=subprocess.PIPE)
+            p2 = subprocess.Popen([common.XARGS, "-0", common.REC, "--"], cwd=sb, env=env2, stdin=p1.stdout, stdout=subprocess.PIPE,
+                                  stderr=subprocess.PIPE, preexec_fn=pre)
+            p1.stdout.close()
+            rp = {"tree": "lib/c07.py many_worker seed=%r k=%d t=%d" % (seed, k, t), "stack_kib": stack_kib}
+            try:
+                o2, e2 = p2.communicate(timeout=300)
+                p1.wait(timeout=60)
+            except subprocess.TimeoutExpired:
+                p1.kill()
+                p2.kill()
+                st.violate("hang", None, {"root": "r", "files": nfiles}, rp)
+                continue
+            inv = xref.read_reclog(log)
+            got = [a for _, argv in inv for a in argv[1:]]
+            st.inc("evaluations")
+            st.inc("pipelines_with_thousands_of_paths")
+            st.inc("argv_elements_compared", len(got))
+            st.inc("command_lines_in_big_pipelines", len(inv))
+            st.add("distinct", (stack_kib, nfiles, len(inv)))
+            if len(inv) > 1:
+                st.inc("pipelines_split_at_the_system_limit")
+            if got != exp or p2.returncode != 0 or p1.returncode != 0:
+                c_exp, c_got = collections.Counter(exp), collections.Counter(got)
+                st.violate("pipe-not-exact", None,
+                           {"root": "r", "paths": len(exp), "delivered": len(got), "stack_limit_kib": stack_kib, "find_exit": p1.returncode,
+                            "xargs_exit": p2.returncode, "stderr": (e2 or b"")[-200:], "lost": list((c_exp - c_got))[:5],
+                            "extra_or_altered": list((c_got - c_exp))[:5], "order_only": c_exp == c_got, "command_lines": len(inv)}, rp)
+            common.force_rmtree(sb)
+    finally:
+        common.force_rmtree(base)
+    return st
+
+
 def worker(job):
     k, ntrees, seed = job
     st = Stats()
@@ -248,13 +322,16 @@ def run(ctx):
                 "dashes, newlines, tabs, quotes, backslashes, {}, $(), glob characters, control characters, 4-byte characters, "
                 "255-byte names, plus chains of 150-255-byte names below a directory whose name contains a newline (records of several KB); "
                 "starting point spelled r, ./r, r/, r//, ./r/, absolute, or itself a blank-only / newline-only name; -print0/-print/-fprint0 and the real "
-                "pipe into xargs -0 [-n k]; distinct = expected path sequence")
+                "pipe into xargs -0 [-n k]; 6 000-36 000 paths through the pipe under a soft stack limit of 512 KiB-2 MiB (several command "
+                "lines, split at the system limit); distinct = expected path sequence")
     ctx.assumptions = ["valid UTF-8 names only (as stated)", "expected bytes come from the tree spec, not from reading the file system back"]
     nw = common.NCPU
-    n = ctx.scale(640, 12800)
+    n = ctx.scale(640, 51200)
     ctx.pmap(worker, [(k, n // nw, ctx.seed) for k in range(nw)])
     ctx.pmap(very_long_worker, [(k, ctx.scale(1, 6), ctx.seed) for k in range(nw)])
     ctx.require("very_long_path_runs", 4)
+    ctx.pmap(many_worker, [(k, ctx.scale(1, 8), ctx.seed) for k in range(nw)])
+    ctx.require("pipelines_split_at_the_system_limit", 4)
     for c in ("names_with:newline", "names_with:leading-dash", "names_with:quote", "names_with:backslash", "names_with:only-blanks",
               "names_with:braces", "names_with:glob", "names_with:4byte", "names_with:long", "names_with:control", "pipelines", "pipelines_with_failing_command", "blank_only_starting_points",
               "tree_shape:long-chain"):
